@@ -40,6 +40,12 @@ static void G_body(unsigned long stateIdx, IntegerT a, IntegerT b) {
   if (g_states < 1) g_violation_c14 = 1;       /* the states container must hold the state that is used */
   g_body_calls_on_caller++;
 }
+/* serial fallback on the caller: it is the only thing that runs on that path, so it must be handed the whole range (C12: every index once) */
+bool g_violation_c12;
+static void G_body_whole(unsigned long stateIdx, IntegerT a, IntegerT b, IntegerT rangeStart, IntegerT rangeEnd) {
+  if (a != rangeStart || b != rangeEnd) g_violation_c12 = 1;
+  G_body(stateIdx, a, b);
+}
 /* the granularity tail, run by the caller through the runTail() lambda */
 static void G_tail_body(IntegerT a, IntegerT b) {
 #ifdef KF_EXCLUDE
@@ -112,24 +118,26 @@ __CPROVER_assigns(g_running, g_state_busy, g_violation_c48)
 ;
 
 void parallel_for_skeleton(ChunkedRange range, ParForOptions options)
-__CPROVER_requires(g_running == 0 && !g_violation_c48 && !g_violation_c14 && g_limit == (options.maxThreads > 1 ? options.maxThreads : 1))
+__CPROVER_requires(g_running == 0 && !g_violation_c48 && !g_violation_c14 && !g_violation_c12 && g_limit == (options.maxThreads > 1 ? options.maxThreads : 1))
 __CPROVER_requires(g_N >= 0 && g_N <= 2147483647)
 /* C48: at no point could more than max(1, maxThreads) body invocations overlap */
 __CPROVER_ensures(!g_violation_c48)
 /* C14: no state object is handed to the caller's invocation while a still-running invocation is bound to it; container non-empty */
 __CPROVER_ensures(!g_violation_c14)
+/* C12: a serial fallback covers the whole range */
+__CPROVER_ensures(!g_violation_c12)
 __CPROVER_ensures(options.wait ==> g_running == 0)
 __CPROVER_ensures((range.start < range.end) ==> g_states >= 1)
 /* maxThreads 0 or 1 => serial: nothing is ever launched */
 __CPROVER_ensures(options.maxThreads <= 1 ==> g_running == 0)
-__CPROVER_assigns(g_running, g_state_busy, g_violation_c48, g_violation_c14, g_states, g_body_calls_on_caller, g_static_nowait_pending, g_known_tail_skipped)
+__CPROVER_assigns(g_running, g_state_busy, g_violation_c48, g_violation_c14, g_violation_c12, g_states, g_body_calls_on_caller, g_static_nowait_pending, g_known_tail_skipped)
 #include "parallel_for_skeleton.body.inc"
 
 #ifdef VERIF_CBMC
 void h_parallel_for_skeleton(void) {
   ChunkedRange range; ParForOptions options;
   _Bool w0, r0; options.wait = w0 ? 1 : 0; options.reuseExistingState = r0 ? 1 : 0;   /* bool fields hold 0/1 only */
-  g_running = 0; g_violation_c48 = 0; g_violation_c14 = 0; g_body_calls_on_caller = 0;
+  g_running = 0; g_violation_c48 = 0; g_violation_c14 = 0; g_violation_c12 = 0; g_body_calls_on_caller = 0;
   for (unsigned i = 0; i < NSTATE; ++i) g_state_busy[i] = 0;
   g_limit = options.maxThreads > 1 ? options.maxThreads : 1;
   size_type nN; _Bool nR; unsigned long nS; g_N = nN; g_recursive = nR; g_states = nS; g_static_nowait_pending = 0; g_known_tail_skipped = 0;
